@@ -254,7 +254,8 @@ def make_ids(rng, nr):
         ids["r%dc" % r] = host + uid()
         ids["r%dt" % r] = host + uid()
         ids["r%du" % r] = host + uid()
-        ids["r%dg" % r] = "http://sim%d.test:9000/CAPS/%s" % (r, uid()[:13])
+        ids["r%dg" % r] = "http://sim%d.test:9000/CAPS/%s" % (r, uid()[:13])     # simulator's host, another port
+        ids["r%dh" % r] = host + uid()                                           # the Seed cap's own host:port
     return ids
 
 
@@ -430,9 +431,9 @@ def run(chk: Check):
     ]
     plan = []
     if chk.tier == "quick":
-        plan.append(("b1", dict(NR=2, MaxSeed=2, MaxTemp=2, Grants="1,2,3,4,5,6,7,9", PO=P1, Wants="1,2", TN=T1, Depth=5), "2r-d5", 6000))
+        plan.append(("b1", dict(NR=2, MaxSeed=2, MaxTemp=2, Grants="1,2,3,4,5,6,7,9,10", PO=P1, Wants="1,2", TN=T1, Depth=5), "2r-d5", 6000))
         # two sessions, asset URL shared across sessions (no one-shot caps)
-        plan.append(("b1", dict(NR=3, MaxSeed=2, MaxTemp=0, Grants="1,5,6", PO=P1, Wants="1,2", TN=T1, Depth=5), "3r-d5-small", 2000))
+        plan.append(("b1", dict(NR=3, MaxSeed=2, MaxTemp=0, Grants="1,5,6,10", PO=P1, Wants="1,2", TN=T1, Depth=5), "3r-d5-small", 2000))
         # long grant histories of ONE name in one region: re-grants of an earlier URL (a c a, a c a c, a ax a ..)
         plan.append(("b1", dict(NR=1, MaxSeed=4, MaxTemp=0, Grants="1,2,8", PO=P1, Wants="1,2", TN=T1, Depth=9), "1r-regrant-d9", 1500))
         # two proxy-only caps, seed requests naming them in every order / adjacency
@@ -443,14 +444,14 @@ def run(chk: Check):
         plan.append(("b1", dict(NR=1, MaxSeed=1, MaxTemp=3, Grants="4", PO="", Wants="1", TN=T2, Depth=8), "1r-temps3-d8", 1500))
         plan.append(("algo", dict(NR=1, MaxSeed=2, MaxTemp=1, Grants="1,3,9", PO=P2, Wants="1,3,5", TN=T1, Depth=6), "1r-d6-small"))
     else:
-        plan.append(("b1", dict(NR=3, MaxSeed=2, MaxTemp=1, Grants="1,2,3,4,5,6,7,9", PO=P1, Wants="1,2", TN=T1, Depth=5), "3r-d5", 20000))
-        plan.append(("b1", dict(NR=2, MaxSeed=3, MaxTemp=2, Grants="1,2,3,4,5,6,7,8,9", PO=P1, Wants="1,2", TN=T1, Depth=6), "2r-d6", 30000))
+        plan.append(("b1", dict(NR=3, MaxSeed=2, MaxTemp=1, Grants="1,2,3,4,5,6,7,9,10", PO=P1, Wants="1,2", TN=T1, Depth=5), "3r-d5", 20000))
+        plan.append(("b1", dict(NR=2, MaxSeed=3, MaxTemp=2, Grants="1,2,3,4,5,6,7,8,9,10", PO=P1, Wants="1,2", TN=T1, Depth=6), "2r-d6", 30000))
         plan.append(("b1", dict(NR=1, MaxSeed=5, MaxTemp=0, Grants="1,2,3,8", PO=P1, Wants="1,2", TN=T1, Depth=11), "1r-regrant-d11", 10000))
         plan.append(("b1", dict(NR=2, MaxSeed=2, MaxTemp=0, Grants="1,5", PO=P2, Wants="1,2,3,4,5,6,7", TN=T1, Depth=7), "2r-proxy2-d7", 10000))
         plan.append(("b1", dict(NR=1, MaxSeed=3, MaxTemp=2, Grants="1,2,3,9", PO=P1, Wants="1,2", TN=T1, Depth=9), "1r-temps-d9", 10000))
         plan.append(("b1", dict(NR=1, MaxSeed=2, MaxTemp=3, Grants="4,9", PO="", Wants="1", TN=T2, Depth=9), "1r-temps3-d9", 10000))
         plan.append(("algo", dict(NR=1, MaxSeed=1, MaxTemp=3, Grants="4", PO="", Wants="1", TN=T2, Depth=8), "1r-temps3-d8"))
-        plan.append(("algo", dict(NR=2, MaxSeed=2, MaxTemp=1, Grants="1,2,3,4,5,6,7,8,9", PO=P1, Wants="1,2", TN=T1, Depth=5), "2r-d5"))
+        plan.append(("algo", dict(NR=2, MaxSeed=2, MaxTemp=1, Grants="1,2,3,4,5,6,7,8,9,10", PO=P1, Wants="1,2", TN=T1, Depth=5), "2r-d5"))
         plan.append(("algo", dict(NR=1, MaxSeed=4, MaxTemp=0, Grants="1,2,8", PO=P1, Wants="1,2", TN=T1, Depth=9), "1r-regrant-d9"))
         plan.append(("algo", dict(NR=1, MaxSeed=2, MaxTemp=1, Grants="1,3,9", PO=P2, Wants="1,2,3,4,5,6,7", TN=T1, Depth=7), "1r-proxy2-d7"))
     _prefetch(chk, plan)
